@@ -45,7 +45,9 @@ def cases(draw, tier):
             p = list(draw(st.permutations(list(range(n)))))
             tree = dict(tree, a=gen.enc(a[p]))
     # badly scaled inputs: every float payload of the tree multiplied by a power of ten (factorisations are scale covariant)
-    return {"fn": fn, "tree": tree, "scale_exp": draw(st.sampled_from([0, 0, 0, -12, -6, 6, -20]))}
+    # graded rows (plu): row i of every dense leaf multiplied by 10^e_i, e_i in -5..5 (partial pivoting is normwise stable)
+    grade = [draw(st.integers(-5, 5)) for _ in range(6)] if fn == "plu" and draw(st.integers(1, 4)) == 1 else None
+    return {"fn": fn, "tree": tree, "scale_exp": draw(st.sampled_from([0, 0, 0, -12, -6, 6, -20])), "row_grade": grade}
 
 
 def strategy(tier):
@@ -101,10 +103,28 @@ def rescale(ir, f):
     return out
 
 
+def grade_rows(ir, exps):
+    """copy of the IR with row i of every dense-like f8/c16 payload multiplied by 10^exps[i mod len]."""
+    out = {}
+    for k, v in ir.items():
+        if k == "ch":
+            out[k] = [grade_rows(c, exps) for c in v]
+        elif isinstance(v, dict) and "dt" in v and "v" in v and v["dt"] in ("f8", "c16") and ir["k"] in ("dense", "matmat", "lazify") and k == "a":
+            a = IR.dec(v)
+            f = 10.0 ** np.array([exps[i % len(exps)] for i in range(a.shape[0])], dtype=float)
+            out[k] = IR.enc(a * f[:, None])
+        else:
+            out[k] = v
+    return out
+
+
 def check(case, out):
     import cola
     from cola.linalg.decompositions.decompositions import cholesky, plu
     fn, tree = case["fn"], case["tree"]
+    if case.get("row_grade"):
+        tree = grade_rows(tree, case["row_grade"])
+        out.label("row_graded")
     if case.get("scale_exp"):
         tree = rescale(tree, 10.0 ** case["scale_exp"])
         out.label("scaled:1e%d" % case["scale_exp"])
@@ -117,7 +137,7 @@ def check(case, out):
     site = f"{fn}:{kind}"
     M = R.M.astype(np.complex128)
     eps = max(IR.tree_eps(tree), oracle.eps_of(R.dtype))
-    tol = 1e3 * eps * max(n, 1) * (np.abs(M).max(initial=0) if case.get("scale_exp") else max(1.0, np.abs(M).max(initial=0)))
+    tol = 1e3 * eps * max(n, 1) * (np.abs(M).max(initial=0) if case.get("scale_exp") or case.get("row_grade") else max(1.0, np.abs(M).max(initial=0)))
     pivot = False
     if fn == "plu" and tree["k"] in ("dense", "matmat", "lazify"):
         a = np.abs(IR.dec(tree["a"]))
